@@ -552,6 +552,19 @@ impl Item_@C@ {
 pub const @C@: Item_@C@ = Item_@C@;
 '''
 
+def find_anchor(body, anchor, start=0):
+    """position of a hint anchor: the literal text; for a `let` anchor also the same binding written with or without `mut`,
+    with or without a type annotation, and with any spacing (a refactoring that only changes those keeps the anchor)"""
+    pos = body.find(anchor, start)
+    if pos >= 0: return pos
+    m = re.match(r'^let\s+(?:mut\s+)?([A-Za-z_]\w*|\([^)]*\))\s*(?::\s*[^=]+?)?\s*(=?)\s*(.*)$', anchor, re.S)
+    if not m: return -1
+    name = re.escape(m.group(1)).replace('\\ ', '\\s*')
+    rest = '\\s*'.join(re.escape(t) for t in m.group(3).split()) if m.group(3).strip() else ''
+    pat = r'let\s+(?:mut\s+)?' + name + r'\b\s*(?::\s*[^=;]+?)?' + (r'\s*=\s*' + rest if m.group(2) else '')
+    mm = re.compile(pat).search(body, start)
+    return mm.start() if mm else -1
+
 _KW_BLOCK = ('if', 'for', 'while', 'loop', 'match', 'unsafe')
 
 def _stmts_before(bm, off):
@@ -900,7 +913,7 @@ class Unit:
                 continue
             pos = -1; start = 0
             for _ in range(h['nth']):
-                pos = body.find(h['anchor'], start)
+                pos = find_anchor(body, h['anchor'], start)
                 if pos < 0: break
                 start = pos + 1
             if pos < 0:
